@@ -43,8 +43,10 @@ Definition C08_shortest_f32_statement : Prop := forall b f bs,
   in_f64 b -> in_f32 f -> is_nan32 f = false -> f64_eq (widen f) b = true ->
   (forall n, -32768 <= n <= 32767 -> f64_eq (of_int64 n) b = false) ->
   gencodeDouble b = Ok bs -> length bs = 5%nat.
-(* proved for float32 values in the normal range, zeros and infinities (f32_plain);
-   missing: float32 subnormals (covered by the correspondence run and the oracle only) *)
+Theorem C08_shortest_f32 : C08_shortest_f32_statement.
+Proof. intros b f bs Hb Hf Hn. exact (double_shortest_f32 b f bs Hb (conj Hf Hn)). Qed.
+Print Assumptions C08_shortest_f32.
+(* the earlier, weaker form (normal range, zeros and infinities only), kept for reference *)
 Theorem C08_double_shortest_f32_partial : forall b f bs,
   in_f64 b -> f32_plain f -> f64_eq (widen f) b = true ->
   (forall n, -32768 <= n <= 32767 -> f64_eq (of_int64 n) b = false) ->
